@@ -3,6 +3,7 @@ package main
 import (
 	"encoding/json"
 	"fmt"
+	"sort"
 
 	"github.com/oneconcern/datamon/pkg/filetracker"
 
@@ -17,12 +18,20 @@ type c22Case struct {
 }
 
 func c22Run(writes [][2]int64, maxOff int64, lens []int64) c22Case {
+	offs := make([]int64, 0, maxOff+1)
+	for off := int64(0); off <= maxOff; off++ {
+		offs = append(offs, off)
+	}
+	return c22RunAt(writes, offs, lens)
+}
+
+func c22RunAt(writes [][2]int64, offs []int64, lens []int64) c22Case {
 	t := filetracker.VerifNewTracker()
 	for _, w := range writes {
 		t.TrackWrite(w[0], w[1])
 	}
 	cs := c22Case{Writes: writes}
-	for off := int64(0); off <= maxOff; off++ {
+	for _, off := range offs {
 		for _, l := range lens {
 			c, m := t.GetRangeToRead(off, l)
 			mi := int64(0)
@@ -48,7 +57,53 @@ func c22Coq(cs c22Case) string {
 }
 
 func c22Emit(c *Ctx, writes [][2]int64, maxOff int64, lens []int64) {
-	cs := c22Run(writes, maxOff, lens)
+	c22EmitCase(c, c22Run(writes, maxOff, lens))
+}
+
+// writes whose offsets straddle the byte boundaries of the tracker's big-endian keys (2^8, 2^16, 2^32),
+// probed around every write boundary with short and long lengths
+func c22Wide(c *Ctx, rng *gen.Rand) {
+	bases := []int64{256, 512, 65536, 1 << 24, 1 << 32, 255, 1000}
+	n := rng.Range(2, 6)
+	ws := make([][2]int64, n)
+	marks := map[int64]bool{0: true}
+	for i := range ws {
+		b := bases[rng.Intn(len(bases))]
+		off := b - 40 + int64(rng.Intn(80))
+		if rng.Chance(1, 3) {
+			off = int64(rng.Intn(1200))
+		}
+		if off < 0 {
+			off = 0
+		}
+		l := int64([]int{0, 1, 5, 40, 300, 900, 257}[rng.Intn(7)])
+		if i > 0 && rng.Chance(1, 4) {
+			p := ws[rng.Intn(i)]
+			off = p[0] + p[1]
+		}
+		ws[i] = [2]int64{off, l}
+		marks[off], marks[off+l] = true, true
+		marks[off+l/2] = true
+	}
+	for _, b := range bases {
+		marks[b] = true
+	}
+	var offs []int64
+	seen := map[int64]bool{}
+	for m := range marks {
+		for d := int64(-2); d <= 2; d++ {
+			if o := m + d; o >= 0 && !seen[o] {
+				seen[o] = true
+				offs = append(offs, o)
+			}
+		}
+	}
+	sort.Slice(offs, func(i, j int) bool { return offs[i] < offs[j] })
+	c22EmitCase(c, c22RunAt(ws, offs, []int64{1, 2, 100, 300}))
+}
+
+func c22EmitCase(c *Ctx, cs c22Case) {
+	writes := cs.Writes
 	// non-trivial: at least two writes that overlap or touch
 	key := ""
 	class := fmt.Sprintf("writes=%d", len(writes))
@@ -72,7 +127,7 @@ func init() {
 		c.Header = "From Coq Require Import List ZArith.\nFrom DM Require Import Model.TrackerCheck.\nImport ListNotations.\nOpen Scope Z_scope."
 		c.CaseTy = "tcase"
 		c.Report = "report"
-		c.Rule = "exhaustive write histories over a small offset range plus random longer ones; every history probed at every offset of the range with lengths 1, 2 and 100; non-trivial = a history with two writes that overlap or touch, distinct by write list"
+		c.Rule = "exhaustive write histories over a small offset range plus random longer ones; every history probed at every offset of the range with lengths 1, 2 and 100; histories with offsets around 2^8, 2^16, 2^24 and 2^32 and lengths up to 900, probed around every write boundary; non-trivial = a history with two writes that overlap or touch, distinct by write list"
 		if len(c.Replay) > 0 {
 			for _, raw := range c.Replay {
 				var cs c22Case
@@ -136,6 +191,9 @@ func init() {
 		for i := 0; i < n; i++ {
 			ws := randWrites(rng, 4, 8, 24, 8)
 			c22Emit(c, ws, 34, lens)
+		}
+		for i := 0; i < n/10; i++ {
+			c22Wide(c, rng)
 		}
 	}
 }
